@@ -3,7 +3,7 @@ from ..rules_codec import codec_peewee, codec_sqlite
 from ..rules_commit import check_no_rollback
 from ..rules_own import own_rules
 from ..rules_read import count_source, last_rule
-from ..rules_store import instance_state, addr_rule, ddl_facts, idalloc_memory, scope_memory, scope_peewee, scope_sqlite, upsert_rule, forward_bucket
+from ..rules_store import instance_state, addr_rule, ddl_facts, idalloc_memory, idalloc_sql, scope_memory, scope_peewee, scope_sqlite, upsert_rule, forward_bucket
 
 METHODS = {"delete", "replace", "get_event", "insert_one", "insert_many", "replace_last", "get_events", "get_eventcount"}
 
@@ -27,6 +27,7 @@ def check(prog, rep):
     upsert_rule(prog, rep)
     ddl_facts(prog, rep)
     idalloc_memory(prog, rep)
+    idalloc_sql(prog, rep)
     forward_bucket(prog, rep)
     # what is written is what a list would hold: the SQL backends' encode/decode tables and scale constants agree
     codec_sqlite(prog, rep)
